@@ -302,6 +302,25 @@ def check(c):
         buf = io.BytesIO()
         twin.save(buf)
         buf.seek(0)
+        # shared object: two further states are built from ONE dictionary object; one of them loads the twin's file - the other one's metrics
+        # (and the caller's dictionary) must not move
+        from qucumber.nn_states import ComplexWaveFunction, DensityMatrix
+        shared_d = gen.lib_unitary_dict(sc)
+        keep_d = {k_: v_.clone() for k_, v_ in shared_d.items()}
+        mk_ = (lambda: ComplexWaveFunction(n, sc["nh"], unitary_dict=shared_d, gpu=False)) if t == "complex" else (lambda: DensityMatrix(n, sc["nh"], sc["na"], unitary_dict=shared_d, gpu=False))
+        s1, s2 = mk_(), mk_()
+        for s_ in (s1, s2):
+            gen.set_net(s_.rbm_am, sc["am"]); gen.set_net(s_.rbm_ph, sc["ph"])
+        rows0 = born_rows({"state": sc, "rows": c["rows"]})
+        smp0 = R.rows_from_indices([k for _, k in rows0], n)
+        sb0 = np.array([list(b) for b, _ in rows0]).reshape(len(rows0), n)
+        before_ = TS.NLL(s2, smp0.clone(), space, sample_bases=sb0)
+        buf.seek(0)
+        s1.load(buf)
+        after_ = TS.NLL(s2, smp0.clone(), space, sample_bases=sb0)
+        require((before_ == after_ or (before_ != before_ and after_ != after_)) and all(torch.equal(shared_d[k_], keep_d[k_]) for k_ in keep_d) and list(shared_d.keys()) == list(keep_d.keys()),
+                "shared-dictionary:sibling-metrics-moved", f"after a sibling state built from the same dictionary object loaded a file, NLL of this state changed from {before_} to {after_} (or the caller's dictionary was altered)")
+        buf.seek(0)
         state.load(buf)
         ud = gen.ref_unitary_dict(sc2)          # `born` and `inv_cond` read this name
         rows2 = [(r_["basis"], r_["u"]) for r_ in c["rows"]]
